@@ -417,11 +417,27 @@ func Walk(fs FS, deep bool) (root *Node, problem string) {
 		}
 	}()
 	root = NewDir()
-	problem = walkInto(fs, "", root, deep, 0)
+	problem = walkInto(fs, "", root, deep, 0, "")
 	return root, problem
 }
 
-func walkInto(fs FS, dir string, into *Node, deep bool, depth int) string {
+// WalkSkip is Walk without descending into the directory skip (a cleaned path); that
+// directory appears as an empty directory in the result.
+func WalkSkip(fs FS, skip string) (root *Node, problem string) {
+	defer func() {
+		if r := recover(); r != nil {
+			root, problem = nil, fmt.Sprintf("tree walk panicked: %v\n%s", r, shortStack())
+		}
+	}()
+	root = NewDir()
+	problem = walkInto(fs, "", root, false, 0, skip)
+	return root, problem
+}
+
+func walkInto(fs FS, dir string, into *Node, deep bool, depth int, skip string) string {
+	if skip != "" && dir == skip {
+		return ""
+	}
 	if depth > 40 {
 		return fmt.Sprintf("tree deeper than 40 levels at %q", dir)
 	}
@@ -455,7 +471,7 @@ func walkInto(fs FS, dir string, into *Node, deep bool, depth int) string {
 					return fmt.Sprintf("walk: Lstat of listed directory %q: err=%v", p, err)
 				}
 			}
-			if pr := walkInto(fs, p, kid, deep, depth+1); pr != "" {
+			if pr := walkInto(fs, p, kid, deep, depth+1, skip); pr != "" {
 				return pr
 			}
 		} else {
